@@ -832,7 +832,8 @@ pub fn emit_machine(a: &Args, out: &mut Out) {
     if kind == "adv" { gen_adv(a, out, 1, a.get_u64("reps", if a.thorough() { 6 } else { 1 })); return; }
     if kind == "load" { crate::scen2::gen_load(a, out, 1, a.get_u64("n", if a.thorough() { 400 } else { 40 })); return; }
     if kind == "reset" { crate::scen2::gen_reset(a, out, 1, a.get_u64("n", if a.thorough() { 300 } else { 30 })); return; }
-    if kind == "repro" { let n = a.get_u64("n", if a.thorough() { 200 } else { 20 }); crate::scen2::gen_repro(a, out, 1, n); crate::scen2::gen_repro_reset(a, out, 1 + 2 * n, if a.thorough() { 40 } else { n }); return; }
+    // (a seeded machine logs its whole memory in the header: the thorough file is kept below 100 MB, which TLC reads in minutes)
+    if kind == "repro" { let n = a.get_u64("n", if a.thorough() { 80 } else { 20 }); crate::scen2::gen_repro(a, out, 1, n); crate::scen2::gen_repro_reset(a, out, 1 + 2 * n, if a.thorough() { 30 } else { n }); return; }
     if kind == "strictpairs" { crate::scen2::gen_strict_pairs(a, out, 1, a.get_u64("n", if a.thorough() { 400 } else { 40 }), false); return; }
     if kind == "strictfull" { crate::scen2::gen_strict_pairs(a, out, 1, a.get_u64("n", if a.thorough() { 200 } else { 20 }), true); return; }
     if kind == "run" { crate::scen2::gen_run(a, out, 1, a.get_u64("n", if a.thorough() { 300 } else { 30 }), a.get_u64("np", if a.thorough() { 150 } else { 15 })); return; }
